@@ -234,6 +234,169 @@ func c07Exec(c *fw.Ctx, cas c07Case) {
 	c.Class(fmt.Sprintf("%s/msgs=%d/reads=%d", dev, len(cas.Lens), len(sc.asks)))
 }
 
+// ---- session switch scenarios ------------------------------------------------------------------------
+//
+// The switch from plaintext to the encrypted session happens while net/http may have a read pending in the
+// background. World steps, in their only possible order: S = the pair-verify handler installs the
+// cryptographer, W = the plaintext response is written, D = the controller's first encrypted request arrives.
+// A reader issues Read calls that start at any point relative to S/W/D; a blocked Read either stays blocked
+// until D or is aborted with a timeout (net/http's abortPendingRead) at a later point, after which a new Read
+// starts at any later point. All such placements are enumerated.
+
+type c07SwitchCase struct {
+	Reads [][2]int `json:"reads"` // per Read call: {start position, abort position or -1}; positions 0:<S 1:<W 2:<D 3:>D
+	Len   int      `json:"len"`
+	Buf   int      `json:"buf"`
+}
+
+type switchConn struct {
+	queue   []byte
+	onEmpty func() bool // runs world steps while the Read is blocked; false = abort with timeout
+	wire    [][]byte
+	closed  bool
+}
+
+func (s *switchConn) Read(b []byte) (int, error) {
+	if s.closed {
+		return 0, io.ErrClosedPipe
+	}
+	if len(s.queue) == 0 {
+		if s.onEmpty == nil || !s.onEmpty() || len(s.queue) == 0 {
+			return 0, timeoutErr{}
+		}
+	}
+	n := copy(b, s.queue)
+	s.queue = s.queue[n:]
+	return n, nil
+}
+func (s *switchConn) Write(b []byte) (int, error) {
+	s.wire = append(s.wire, append([]byte{}, b...))
+	return len(b), nil
+}
+func (s *switchConn) Close() error                     { s.closed = true; return nil }
+func (s *switchConn) LocalAddr() net.Addr              { return fakeAddr("10.0.0.1:1") }
+func (s *switchConn) RemoteAddr() net.Addr             { return fakeAddr("10.0.0.2:2") }
+func (s *switchConn) SetDeadline(time.Time) error      { return nil }
+func (s *switchConn) SetReadDeadline(time.Time) error  { return nil }
+func (s *switchConn) SetWriteDeadline(time.Time) error { return nil }
+
+func c07SwitchExec(c *fw.Ctx, cas c07SwitchCase) {
+	c.Eval(1)
+	_, c2a := refctl.SessionKeys(c07Secret[:])
+	var ctr uint64
+	plain := pat(cas.Len, 77)
+	cipher := refctl.Frames(c2a, &ctr, plain)
+	response := []byte("HTTP/1.1 200 OK\r\nContent-Type: application/pairing+tlv8\r\nContent-Length: 3\r\n\r\n\x06\x01\x04")
+	server, err := hccrypto.NewSecureSessionFromSharedKey(c07Secret)
+	if err != nil {
+		c.Infra(err.Error())
+		return
+	}
+	sc := &switchConn{}
+	ctx := hap.NewContextForSecuredDevice(nil)
+	conn := hap.NewConnection(sc, ctx)
+	sess := ctx.GetSessionForConnection(sc)
+	pos := 0
+	advance := func(to int) {
+		for pos < to {
+			switch pos {
+			case 0:
+				sess.SetCryptographer(server)
+			case 1:
+				conn.Write(response)
+			case 2:
+				sc.queue = append(sc.queue, cipher...)
+			}
+			pos++
+		}
+	}
+	label := fmt.Sprint(cas.Reads)
+	fail := func(sym, desc string) { c.Report("switch/"+sym+"/reads="+label, desc, cas) }
+	var got []byte
+	doRead := func(start, abort int) bool {
+		if start > pos {
+			advance(start)
+		}
+		sc.onEmpty = func() bool {
+			if abort >= 0 {
+				advance(abort)
+				return false
+			}
+			advance(3)
+			return true
+		}
+		buf := make([]byte, cas.Buf)
+		var n int
+		var rerr error
+		if p := guard(func() { n, rerr = conn.Read(buf) }); p != nil {
+			fail("panic", fmt.Sprintf("Read panics: %v", p))
+			return false
+		}
+		got = append(got, buf[:n]...)
+		if rerr != nil {
+			if ne, ok := rerr.(net.Error); ok && ne.Timeout() && abort >= 0 {
+				return true
+			}
+			fail("read-error", fmt.Sprintf("Read returned %v", rerr))
+			return false
+		}
+		return true
+	}
+	for _, r := range cas.Reads {
+		if !doRead(r[0], r[1]) {
+			return
+		}
+	}
+	for i := 0; len(got) < len(plain) && i < 3*len(plain)+10; i++ {
+		if !doRead(3, -1) {
+			return
+		}
+	}
+	advance(3)
+	switch {
+	case len(sc.wire) != 1 || !bytes.Equal(sc.wire[0], response):
+		fail("response-not-plaintext", "the pair-verify response did not reach the wire as the plaintext bytes written (the session switched before the response was written)")
+	case !bytes.Equal(got, plain):
+		what := "differs"
+		if len(got) > 0 && bytes.HasPrefix(cipher, got[:1]) && !bytes.HasPrefix(plain, got[:1]) {
+			what = "ciphertext-handed-out-as-plaintext"
+		}
+		fail("request-"+what, fmt.Sprintf("the first encrypted request was not delivered as its plaintext (%d of %d bytes match)", commonPrefix(got, plain), len(plain)))
+	default:
+		c.Class("switch/reads=" + label)
+	}
+}
+
+func commonPrefix(a, b []byte) int {
+	n := 0
+	for n < len(a) && n < len(b) && a[n] == b[n] {
+		n++
+	}
+	return n
+}
+
+func c07SwitchCases() []c07SwitchCase {
+	var out []c07SwitchCase
+	for _, ln := range []int{60, 1500} {
+		for _, buf := range []int{1, 4096} {
+			for p := 0; p <= 3; p++ {
+				out = append(out, c07SwitchCase{Reads: [][2]int{{p, -1}}, Len: ln, Buf: buf})
+				for a := p; a <= 2; a++ { // aborted at a (before D), next read starts at r ≥ a
+					for r := a; r <= 3; r++ {
+						out = append(out, c07SwitchCase{Reads: [][2]int{{p, a}, {r, -1}}, Len: ln, Buf: buf})
+						for a2 := r; a2 <= 2; a2++ { // a second abort
+							for r2 := a2; r2 <= 3; r2++ {
+								out = append(out, c07SwitchCase{Reads: [][2]int{{p, a}, {r, a2}, {r2, -1}}, Len: ln, Buf: buf})
+							}
+						}
+					}
+				}
+			}
+		}
+	}
+	return out
+}
+
 var c07Lens = []int{1, 2, 17, 1023, 1024, 1025, 2048, 4095, 4096, 4097}
 var c07Policies = [][]int{{1}, {7}, {1024}, {4096}, {8192}, {1, 4096}}
 
@@ -252,6 +415,14 @@ func c07Run(c *fw.Ctx) {
 		c07Exec(c, cas)
 	}
 	th := c.Thorough()
+	for i, sw := range c07SwitchCases() {
+		if c.Mine(i) {
+			if i == 5 {
+				c.Sample(sw)
+			}
+			c07SwitchExec(c, sw)
+		}
+	}
 	// deviation bound 0: every sequence of 1..2 (thorough: 1..3) messages, default segmentation
 	var seqs [][]int
 	for _, a := range c07Lens {
@@ -347,9 +518,14 @@ func init() {
 	fw.Register(&fw.Check{
 		ID:    "C07",
 		Level: "model_checking",
-		Rule:  "deviation-bounded exhaustive exploration of network behaviours for a real hap.Connection over a scripted net.Conn: message sequences of length 1–2 (thorough 1–3) over lengths {1,2,17,1023,1024,1025,2048,4095,4096,4097} × 6 caller-buffer policies (1, 7, 1024, 4096, 8192, net/http's 1-then-4096); 0 deviations = one segment per message; deviations = split at every byte offset, coalesce adjacent segments, read timeout before a segment; bound 1 completely, bound 2 for split+timeout, coalesce+split (thorough: all length pairs; every pair of splits for messages ≤1025). Oracle per execution: exact byte equality, no EOF/error/close while the peer sends well-formed frames, and the promptness invariant (the network is asked for more only when every completely received frame has been handed to the caller). states = executions, distinct_nontrivial = distinct (deviation kind, message count, number of underlying reads) classes",
+		Rule:  "deviation-bounded exhaustive exploration of network behaviours for a real hap.Connection over a scripted net.Conn: message sequences of length 1–2 (thorough 1–3) over lengths {1,2,17,1023,1024,1025,2048,4095,4096,4097} × 6 caller-buffer policies (1, 7, 1024, 4096, 8192, net/http's 1-then-4096); 0 deviations = one segment per message; deviations = split at every byte offset, coalesce adjacent segments, read timeout before a segment; bound 1 completely, bound 2 for split+timeout, coalesce+split (thorough: all length pairs; every pair of splits for messages ≤1025). Plus the session-switch scenarios: every placement of 1–3 Read calls (blocked until data or aborted by a timeout) relative to the world steps install-cryptographer / write-response / first-ciphertext-arrives: the response must reach the wire in plaintext and the request must be delivered as its plaintext. Oracle per execution: exact byte equality, no EOF/error/close while the peer sends well-formed frames, and the promptness invariant (the network is asked for more only when every completely received frame has been handed to the caller). states = executions, distinct_nontrivial = distinct (deviation kind, message count, number of underlying reads) classes",
 		Run:   c07Run,
 		Replay: func(c *fw.Ctx, raw json.RawMessage) {
+			var sw c07SwitchCase
+			if json.Unmarshal(raw, &sw) == nil && len(sw.Reads) > 0 {
+				c07SwitchExec(c, sw)
+				return
+			}
 			var cas c07Case
 			json.Unmarshal(raw, &cas)
 			c07Exec(c, cas)
